@@ -86,7 +86,7 @@ def gen_cases(ctx):
         for op in OPERANDS:
             cases.append({"kind": "add", "side": side, "operand": op})
     for topo in [None, "circular", "Circular", "CIRCULAR", "linear", "Linear", "LINEAR"]:
-        for via in ("seq", "seqrecord"):
+        for via in ("seq", "seqrecord", "circularrecord"):
             cases.append({"kind": "ctor", "topology": topo, "via": via})
     nmax = 4 if ctx.quick else 5
     for n in range(1, nmax + 1):
@@ -98,6 +98,18 @@ def gen_cases(ctx):
     for probe in ("feature_location", "feature_qualifier", "annotation", "dbxref", "letter_annotation",
                   "feature_list", "orig_feature_qualifier", "orig_annotation"):
         cases.append({"kind": "copy", "probe": probe})
+        cases.append({"kind": "copy", "probe": probe, "source": "circularrecord"})
+    # letter case is part of the text: a query differing from the record in case only is not contained
+    for _ in range(60 if ctx.quick else 600):
+        n = rng.randrange(2, 20)
+        s = "".join(rng.choice("ACGTacgt") for _ in range(n))
+        k = rng.randrange(0, n)
+        ln = rng.randrange(1, n + 1)
+        q = (s + s)[k:k + ln]
+        if rng.random() < 0.7:
+            i = rng.randrange(0, len(q))
+            q = q[:i] + q[i].swapcase() + q[i + 1:]
+        cases.append({"kind": "contains", "s": s, "q": q})
     return cases
 
 
@@ -174,6 +186,13 @@ def impl_case(c):
         ann = {} if c["topology"] is None else {"topology": c["topology"]}
         if c["via"] == "seq":
             oc, v = _outcome(lambda: CircularRecord(Seq("ACGT"), id="r", annotations=dict(ann)))
+        elif c["via"] == "circularrecord":
+            # an existing CircularRecord whose annotations were edited afterwards, wrapped again
+            src = CircularRecord(Seq("ACGT"), id="r")
+            src.annotations.update(ann)
+            oc, v = _outcome(lambda: CircularRecord(src))
+            if v is src:
+                return {"outcome": oc, "cls": "the-very-same-object"}
         else:
             src = SeqRecord(Seq("ACGT"), id="r", annotations=dict(ann))
             oc, v = _outcome(lambda: CircularRecord(src))
@@ -189,6 +208,8 @@ def impl_case(c):
                 "topology": v.annotations.get("topology")}
     if k == "copy":
         src = _annotated()
+        if c.get("source") == "circularrecord":
+            src = CircularRecord(src)           # wrapping an existing CircularRecord copies it too
         cp = CircularRecord(src)
         before_src = recutil.deep_snapshot(src)
         before_cp = recutil.deep_snapshot(cp)
